@@ -209,6 +209,16 @@ def install(ex):
         return some(Ref(r.fid, ('field', r.place, len(v.fields) - 1, '?')))
     ex.stub(r'slice::<impl \[.*\]>::last$', v_last, 'concrete Vec: last')
 
+    def v_first(ex_, st, c, A):
+        v = vec(st, A[0])
+        if v is None:
+            return None
+        if not v.fields:
+            return none()
+        r = base_ref(ex_, st, A[0])
+        return some(Ref(r.fid, ('field', r.place, 0, '?')))
+    ex.stub(r'slice::<impl \[.*\]>::first$', v_first, 'concrete Vec: first')
+
     def v_sort_by(ex_, st, c, A):
         v = vec(st, A[0])
         if v is None:
